@@ -217,3 +217,199 @@ Section Sched.
            end) kids
     end.
 End Sched.
+
+(** * every schedule terminates: a completing item strictly decreases the remaining work *)
+Section Termination.
+  Context (accept : bool) (content_merge : list N -> option N).
+  Notation tm := (tm accept).
+  Notation step := (step accept content_merge).
+  Notation process_tree := (process_tree accept).
+
+  Definition sum (l : list nat) : nat := fold_right Nat.add 0%nat l.
+
+  (** Work left below a ReadTrees item, by the same recursion as the merge. *)
+  Fixpoint read_work (f : nat) (ts : list tree) : nat :=
+    3 + sum (map (fun n =>
+                    let vs := map (lookup n) ts in
+                    match tm vs with
+                    | Some _ => 0
+                    | None => if is_tree vs
+                              then match f with O => 0 | S g => read_work g (map to_tree vs) end
+                              else 1
+                    end) (names ts)).
+
+  Fixpoint work (f : nat) (e : etask) : nat :=
+    match e with
+    | ERead ts => read_work f ts
+    | EDir kids => 2 + (fix go (l : list (N * etask)) : nat :=
+                          match l with [] => 0 | k :: t => work (Nat.pred f) (snd k) + go t end) kids
+    | EWritten _ => 1
+    | EFile _ => 1
+    | EDone _ => 0
+    end.
+  Definition kids_work (f : nat) (kids : list (N * etask)) : nat :=
+    sum (map (fun k => work (Nat.pred f) (snd k)) kids).
+  Lemma work_dir f kids : work f (EDir kids) = 2 + kids_work f kids.
+  Proof.
+    cbn [work]. f_equal. unfold kids_work. induction kids as [|k t IH]; [reflexivity|].
+    cbn [map sum fold_right]. now rewrite IH.
+  Qed.
+
+  (** The nesting depth of the trees still to be read is within the fuel. *)
+  Fixpoint depth_ok (f : nat) (e : etask) : Prop :=
+    match e with
+    | ERead ts => Nat.odd (length ts) = true /\ (max_tdepth ts <= f)%nat
+    | EDir kids => (fix go (l : list (N * etask)) : Prop :=
+                      match l with [] => True | k :: t => depth_ok (Nat.pred f) (snd k) /\ go t end) kids
+    | _ => True
+    end.
+  Lemma depth_ok_dir f kids :
+    depth_ok f (EDir kids) <-> Forall (fun k => depth_ok (Nat.pred f) (snd k)) kids.
+  Proof.
+    cbn [depth_ok]. induction kids as [|k t IH]; [split; constructor|].
+    rewrite Forall_cons_iff, <- IH. tauto.
+  Qed.
+
+  Lemma work_settle f kids : (work f (settle kids) <= work f (EDir kids))%nat
+                             /\ (work f (settle kids) < 2 + work f (EDir kids))%nat.
+  Proof.
+    unfold TreeMerger.settle, written_of. destruct (forallb _ kids); rewrite ?work_dir; cbn [work]; lia.
+  Qed.
+
+  Lemma kid_work ts n f : Nat.odd (length ts) = true -> (max_tdepth ts <= f)%nat ->
+    work (Nat.pred f) (snd (kid_of accept ts n))
+    = (let vs := map (lookup n) ts in
+       match tm vs with
+       | Some _ => 0
+       | None => if is_tree vs
+                 then match f with O => 0 | S g => read_work g (map to_tree vs) end
+                 else 1
+       end)%nat
+    /\ depth_ok (Nat.pred f) (snd (kid_of accept ts n)).
+  Proof.
+    intros Hodd Hf. unfold kid_of. cbn [snd]. cbn zeta.
+    destruct (tm (map (lookup n) ts)) eqn:Etm; [split; [reflexivity|exact I]|].
+    destruct (is_tree (map (lookup n) ts)) eqn:Et; [|split; [reflexivity|exact I]].
+    destruct (nontrivial_tree_has_dir accept (map (lookup n) ts)) as [s Hs]; auto; [now rewrite map_length|].
+    apply in_map_iff in Hs as (t & Hl & Hin). apply to_tree_lookup_depth in Hl.
+    destruct f as [|g].
+    - rewrite max_tdepth_le, Forall_forall in Hf. apply Hf in Hin. lia.
+    - cbn [Nat.pred work depth_ok]. split; [reflexivity|]. split; [now rewrite !map_length|].
+      now apply max_tdepth_sub.
+  Qed.
+
+  Lemma work_process f ts : Nat.odd (length ts) = true -> (max_tdepth ts <= f)%nat ->
+    (work f (process_tree ts) < read_work f ts)%nat /\ depth_ok f (process_tree ts).
+  Proof.
+    intros Hodd Hf. rewrite process_tree_eq.
+    assert (E : (kids_work f (map (kid_of accept ts) (names ts)) + 3 = read_work f ts)%nat).
+    { unfold kids_work. rewrite map_map.
+      rewrite (map_ext_in _ (fun n =>
+                 let vs := map (lookup n) ts in
+                 match tm vs with
+                 | Some _ => 0
+                 | None => if is_tree vs
+                           then match f with O => 0 | S g => read_work g (map to_tree vs) end
+                           else 1
+                 end)%nat) by (intros n _; apply (kid_work ts n f Hodd Hf)).
+      destruct f; cbn [read_work]; unfold sum; lia. }
+    split.
+    - destruct (work_settle f (map (kid_of accept ts) (names ts))) as [A _]. rewrite work_dir in A. lia.
+    - unfold TreeMerger.settle. destruct (forallb _ _); [exact I|].
+      apply depth_ok_dir, Forall_forall. intros k Hk. apply in_map_iff in Hk as (n & <- & _).
+      apply (kid_work ts n f Hodd Hf).
+  Qed.
+
+  Lemma kids_work_upd f g n kids :
+    Forall (fun k => (work (Nat.pred f) (g (snd k)) <= work (Nat.pred f) (snd k))%nat) kids ->
+    (kids_work f (upd g n kids) <= kids_work f kids)%nat
+    /\ ((exists k, In k kids /\ N.eqb (fst k) n = true
+                   /\ (work (Nat.pred f) (g (snd k)) < work (Nat.pred f) (snd k))%nat) ->
+        (kids_work f (upd g n kids) < kids_work f kids)%nat).
+  Proof.
+    unfold kids_work, upd. induction kids as [|k t IH]; intros H.
+    - split; [cbn; lia|]. intros (k & [] & _).
+    - inversion H as [|? ? Hk Ht]; subst. destruct (IH Ht) as [A B].
+      cbn [map sum fold_right]. fold (sum (map (fun k0 => work (Nat.pred f) (snd k0))
+        (map (fun k0 => if (fst k0 =? n)%N then (fst k0, g (snd k0)) else k0) t))).
+      fold (sum (map (fun k0 => work (Nat.pred f) (snd k0)) t)).
+      destruct (N.eqb (fst k) n) eqn:E; cbn [snd].
+      + split; [lia|]. intros (k' & [<-|Hin] & Hn & Hlt); [lia|].
+        assert (sum (map (fun k0 => work (Nat.pred f) (snd k0))
+                   (map (fun k0 => if (fst k0 =? n)%N then (fst k0, g (snd k0)) else k0) t))
+                < sum (map (fun k0 => work (Nat.pred f) (snd k0)) t))%nat by (apply B; eauto). lia.
+      + split; [lia|]. intros (k' & [<-|Hin] & Hn & Hlt); [congruence|].
+        assert (sum (map (fun k0 => work (Nat.pred f) (snd k0))
+                   (map (fun k0 => if (fst k0 =? n)%N then (fst k0, g (snd k0)) else k0) t))
+                < sum (map (fun k0 => work (Nat.pred f) (snd k0)) t))%nat by (apply B; eauto). lia.
+  Qed.
+
+  (** [pick] names an item in flight. *)
+  Fixpoint valid (pick : list N) (e : etask) {struct pick} : bool :=
+    match pick with
+    | [] => match e with ERead _ | EWritten _ | EFile _ => true | _ => false end
+    | n :: rest =>
+        match e with
+        | EDir kids => existsb (fun k => N.eqb (fst k) n && valid rest (snd k)) kids
+        | _ => false
+        end
+    end.
+
+  (** A step never increases the remaining work and keeps the depth bound; the completion of
+      an item in flight strictly decreases the work. *)
+  Theorem step_work : forall pick f e, depth_ok f e ->
+    depth_ok f (step pick e)
+    /\ (work f (step pick e) <= work f e)%nat
+    /\ (valid pick e = true -> (work f (step pick e) < work f e)%nat).
+  Proof.
+    induction pick as [|n rest IH]; intros f e Hok.
+    - destruct e as [ts|kids|trees|vs|c]; cbn [TreeMerger.step valid].
+      + destruct Hok as [Hodd Hf]. destruct (work_process f ts Hodd Hf) as [A B].
+        cbn [work]. repeat split; auto; lia.
+      + split; [exact Hok|split; [lia|discriminate]].
+      + cbn [work]. repeat split; auto; lia.
+      + cbn [work]. repeat split; auto; lia.
+      + split; [exact Hok|split; [lia|discriminate]].
+    - destruct e as [ts|kids|trees|vs|c]; cbn [TreeMerger.step valid];
+        try (split; [exact Hok|split; [lia|discriminate]]).
+      fold (upd (step rest) n kids).
+      apply depth_ok_dir in Hok.
+      assert (HF : Forall (fun k => (work (Nat.pred f) (step rest (snd k)) <= work (Nat.pred f) (snd k))%nat) kids).
+      { rewrite Forall_forall in *. intros k Hk. apply (IH (Nat.pred f) (snd k)), Hok, Hk. }
+      destruct (kids_work_upd f (step rest) n kids HF) as [A B].
+      assert (Hok' : depth_ok f (EDir (upd (step rest) n kids))).
+      { apply depth_ok_dir. unfold upd. rewrite Forall_forall in *. intros k Hk.
+        apply in_map_iff in Hk as (k0 & <- & Hk0).
+        destruct (N.eqb (fst k0) n); [cbn [snd]; apply (IH (Nat.pred f) (snd k0)), Hok, Hk0|now apply Hok]. }
+      destruct (work_settle f (upd (step rest) n kids)) as [C D]. rewrite work_dir in C.
+      split; [|split].
+      + unfold TreeMerger.settle. destruct (forallb _ _); [exact I|assumption].
+      + rewrite work_dir. lia.
+      + intros Hv. rewrite work_dir. apply existsb_exists in Hv as (k & Hk & Hv).
+        apply Bool.andb_true_iff in Hv as [Hn Hvk].
+        assert (kids_work f (upd (step rest) n kids) < kids_work f kids)%nat; [|lia].
+        apply B. exists k. repeat split; auto.
+        apply (IH (Nat.pred f) (snd k)); [rewrite Forall_forall in Hok; now apply Hok|assumption].
+  Qed.
+
+  (** Hence at most [read_work] items complete before the merge of [ts] returns, whatever the
+      schedule: the number of completions in any schedule prefix is bounded by the work. *)
+  Fixpoint completions (e : etask) (schedule : list (list N)) : nat :=
+    match schedule with
+    | [] => 0
+    | p :: rest =>
+        match e with
+        | EWritten _ => 0
+        | _ => (if valid p e then 1 else 0) + completions (step p e) rest
+        end
+    end.
+
+  Theorem completions_bounded : forall schedule f e, depth_ok f e ->
+    (completions e schedule <= work f e)%nat.
+  Proof.
+    induction schedule as [|p rest IH]; intros f e Hok; [cbn; lia|]. cbn [completions].
+    destruct (step_work p f e Hok) as (Hok' & Hle & Hlt).
+    specialize (IH f (step p e) Hok').
+    destruct e as [ts|kids|trees|vs|c]; try (destruct (valid p _) eqn:Ev; [specialize (Hlt eq_refl)|]; lia).
+  Qed.
+End Termination.
